@@ -36,7 +36,7 @@ pub fn can_empty(g: &J) -> bool {
     match op(g) {
         "just" => g[1].as_array().map_or(true, |a| a.is_empty()),
         "any" | "oneof" | "noneof" | "sel" | "tree" => false,
-        "end" | "empty" | "probe" | "cfgjust" => true,
+        "end" | "empty" | "probe" | "cfgjust" | "cfgjustr" => true,
         "cust" => g[1].as_u64() == Some(0) && g[2].as_bool() == Some(true),
         "then" | "ithen" | "theni" | "thenctx" | "ignctx" => can_empty(&g[1]) && can_empty(&g[2]),
         "delim" => can_empty(&g[1]) && can_empty(&g[2]) && can_empty(&g[3]),
@@ -69,7 +69,7 @@ fn wf_iter(it: &J) -> bool {
 /// Ast.tla WF
 pub fn wf(g: &J) -> bool {
     match op(g) {
-        "just" | "any" | "oneof" | "noneof" | "sel" | "end" | "empty" | "cust" | "probe" | "cfgjust" | "ref" | "tree" => true,
+        "just" | "any" | "oneof" | "noneof" | "sel" | "end" | "empty" | "cust" | "probe" | "cfgjust" | "cfgjustr" | "ref" | "tree" => true,
         "then" | "ithen" | "theni" | "or" | "andis" | "thenctx" | "ignctx" | "nested" | "padded" => wf(&g[1]) && wf(&g[2]),
         "delim" => wf(&g[1]) && wf(&g[2]) && wf(&g[3]),
         "group" | "grouparr" | "choice" | "choicev" => g[1].as_array().unwrap().iter().all(wf),
@@ -109,8 +109,9 @@ pub fn family(name: &str) -> Family {
             alphabet: vec!["a", "b", "E"],
         },
         "emit" => Family {
-            leaves: vec![j("a"), j("b"), json!(["any"]), json!(["cust", 1, false]), json!(["cust", 2, true])],
-            unary: vec!["ornot", "not", "rewind", "validateF", "validate", "rep0", "rep12", "run0", "mw"],
+            leaves: vec![j("a"), j("b"), json!(["any"]), json!(["cust", 1, false]), json!(["cust", 2, true]),
+                         json!(["validate", ["any"], "1", "F"]), json!(["validate", ["empty"], "0", "F"]), json!(["validate", ["just", ["a"]], "2", "F"])],
+            unary: vec!["ornot", "not", "rewind", "validateF", "validate", "rep0", "rep12", "run0", "run0", "mw"],
             binary: vec!["then", "or", "andis", "choicev", "foldl", "sepc"],
             alphabet: vec!["a", "b"],
         },
@@ -145,7 +146,7 @@ pub fn family(name: &str) -> Family {
             alphabet: vec!["a", "b"],
         },
         "ctx" => Family {
-            leaves: vec![j("a"), j("b"), json!(["any"]), json!(["cfgjust"]), json!(["mw", ["any"]])],
+            leaves: vec![j("a"), j("b"), json!(["any"]), json!(["cfgjust"]), json!(["cfgjustr"]), json!(["mw", ["any"]])],
             unary: vec!["ornot", "mw", "withctx", "mapctx", "mapnum", "rep0", "cfgrep", "cfgrun"],
             binary: vec!["then", "or", "thenctx", "ignctx"],
             alphabet: vec!["a", "b"],
@@ -160,7 +161,7 @@ pub fn family(name: &str) -> Family {
     }
 }
 
-const BOUNDS: [(u64, i64); 8] = [(0, -1), (1, -1), (0, 1), (1, 2), (2, 2), (0, 2), (2, -1), (3, 3)];
+const BOUNDS: [(u64, i64); 10] = [(0, -1), (1, -1), (0, 1), (1, 2), (2, 2), (0, 2), (2, -1), (3, 3), (0, 0), (1, 1)];
 
 fn non_empty(r: &mut Rng, f: &Family, budget: usize) -> J {
     for _ in 0..20 {
